@@ -32,8 +32,8 @@ structure RegOK (W : World) (c : RegCred) (e : RegExpect) : Prop where
       ad.attested = some att ∧ att.credentialId ≠ [] ∧
       decodeCose att.publicKey = .ok key ∧ (∃ i, key.alg.asInt? = some i ∧ i ∈ e.supportedAlgs) ∧
       fmtText fmt = some f ∧ f ∈ knownFormats ∧
-      (f = "none" → ∀ m ∈ ["sig", "x5c", "response", "alg", "ver", "certInfo", "pubArea"],
-          ∀ s, Cbor.lookupText kvs "attStmt" = some (.map s) → stmtMember s m = none)
+      -- an empty statement for 'none': the attStmt member, when it is a map, is the empty map
+      (f = "none" → ∀ s, Cbor.lookupText kvs "attStmt" = some (.map s) → s = [])
 
 theorem algAllowed_spec {alg : Cbor} {l : List Int} (h : algAllowed alg l = true) :
     ∃ i, alg.asInt? = some i ∧ i ∈ l := by
@@ -56,7 +56,7 @@ theorem sound {W : World} {c : RegCred} {e : RegExpect} {r : VerifiedReg}
   obtain ⟨j, hj, hcd⟩ := parseClientData_ok.mp a.cdOk
   obtain ⟨kvs, hobj, hty, ⟨ch, hch, hchal⟩, horig⟩ := clientDataOfJVal_ok hcd
   obtain ⟨o, ho, hmatch⟩ := C01.originOk_spec a.originOk'
-  obtain ⟨ckvs, adBytes, hcbor, hfmt, hraw, hb, had, hstmt⟩ := parseAttObj_ok a.aoOk
+  obtain ⟨ckvs, adBytes, hcbor, hfmt, hraw, hb, had, hrawstmt, hstmt⟩ := parseAttObj_ok a.aoOk
   obtain ⟨hlen, hrp, b, hbyte, hflags, _⟩ := parseAuthData_header had
   obtain ⟨f, hf, hknown, hnone⟩ := verifyFormat_ok a.fmtOk
   obtain ⟨i, hi, hmem⟩ := algAllowed_spec a.algOk
@@ -79,15 +79,10 @@ theorem sound {W : World} {c : RegCred} {e : RegExpect} {r : VerifiedReg}
     simpa [regUvRejects, Spec.flagRow] using this
   · rw [← hat, a.attOk]; rfl
   · intro hnil; have := a.credIdOk; rw [hnil] at this; simp at this
-  · intro hfn m hm s hs
-    have hempty := anySet_false (hnone hfn)
-    rw [hs] at hstmt
-    simp only [parseAttStmt] at hstmt
-    have hst : a.ao.attStmt = _ := (Except.ok.inj hstmt).symm
-    rw [hst] at hempty
-    simp only [List.mem_cons, List.not_mem_nil, or_false] at hm
-    obtain ⟨h1, h2, h3, h4, h5, h6, h7⟩ := hempty
-    rcases hm with rfl | rfl | rfl | rfl | rfl | rfl | rfl <;> assumption
+  · intro hfn s hs
+    have hfalsy := (hnone hfn).2
+    rw [hrawstmt, hs] at hfalsy
+    simpa [cborTruthy, Cbor.truthy] using hfalsy
 
 /-- Violating any one of these causes rejection regardless of format and of the statement. -/
 theorem reject_any_deviation {W : World} {c : RegCred} {e : RegExpect}
@@ -95,12 +90,5 @@ theorem reject_any_deviation {W : World} {c : RegCred} {e : RegExpect}
   cases hr : runM W (verifyReg c e) with
   | error err => exact ⟨err, rfl⟩
   | ok r => exact absurd (sound hr) h
-
-/-- Full-strength reading of "an empty statement for 'none'": the statement map is empty.
-NOT provable of the model of the unchanged code — see `none_stmt_unknown_member_accepted`. -/
-def NoneStmtEmpty (c : RegCred) : Prop :=
-  ∀ kvs s, parseCbor c.attestationObject = .ok (.map kvs) →
-    Cbor.lookupText kvs "fmt" = some (.text (utf8 "none")) →
-    Cbor.lookupText kvs "attStmt" = some (.map s) → s = []
 
 end Webauthn.Props.C02
